@@ -51,136 +51,168 @@ def setStructCsr (n : Nat) (rowPtr colInd : Array Nat) : Option IluSym :=
         some { s with ciL := r.2, ciU := ciU, rpL := s.rpL.push r.2.size, rpU := s.rpU.push ciU.size })
     { n := n, rpL := #[0], ciL := #[], rpU := #[0], ciU := #[] }
 
+/-- the search loop of `_insert`: from position `i` on, stop at a hit (`true`) or at the first larger column -/
+def insertSearch (idx : Array Nat) (j : Nat) : Nat → Nat → Nat × Bool
+  | 0, i => (i, false)
+  | f + 1, i =>
+    if i < idx.size then
+      if idx.getD i 0 == j then (i, true)
+      else if j < idx.getD i 0 then (i, false)
+      else insertSearch idx j f (i + 1)
+    else (i, false)
+
 /-- `_insert(idx, lvl, i, j, l)`: linear search from position `i` in the (sorted) tail, level update on a hit,
     shifting insertion otherwise; returns the next start position -/
-def insertEntry (idx lvl : Array Nat) (i j l : Nat) : Array Nat × Array Nat × Nat := Id.run do
-  let n := idx.size
-  let mut i := i
-  for _ in [0:n] do
-    if i < n then
-      if idx.getD i 0 == j then
-        let lvl' := if l < lvl.getD i 0 then lvl.setIfInBounds i l else lvl
-        return (idx, lvl', i + 1)
-      else if j < idx.getD i 0 then break
-      else i := i + 1
-    else break
-  let idx' := (idx.toList.take i ++ j :: idx.toList.drop i).toArray
-  let lvl' := (lvl.toList.take i ++ l :: lvl.toList.drop i).toArray
-  return (idx', lvl', i + 1)
+def insertEntry (idx lvl : Array Nat) (i j l : Nat) : Array Nat × Array Nat × Nat :=
+  let r := insertSearch idx j (idx.size - i) i
+  if r.2 then (idx, if l < lvl.getD r.1 0 then lvl.setIfInBounds r.1 l else lvl, r.1 + 1)
+  else ((idx.toList.take r.1 ++ j :: idx.toList.drop r.1).toArray,
+        (lvl.toList.take r.1 ++ l :: lvl.toList.drop r.1).toArray, r.1 + 1)
+
+/-- the growing level-p structure during `factorize_symbolic` (`new_ptr_*`, `new_idx_*`, `new_lvl_*`) -/
+structure SymState where
+  ptrL : Array Nat
+  idxL : Array Nat
+  lvlL : Array Nat
+  ptrU : Array Nat
+  idxU : Array Nat
+  lvlU : Array Nat
+
+/-- state of the loop over row `U_j` for one `L_ij`: the arrays plus the two search start positions -/
+structure SymCur where
+  idxL : Array Nat
+  lvlL : Array Nat
+  idxU : Array Nat
+  lvlU : Array Nat
+  olj : Nat
+  ouj : Nat
+
+/-- body of `for(k = new_ptr_u[cj]; k < new_ptr_u[cj+1]; ++k)` -/
+def symEntry (pn i lj : Nat) (c : SymCur) (k : Nat) : SymCur :=
+  let ck := c.idxU.getD k 0
+  let ll := lj + c.lvlU.getD k 0 + 1
+  if ll > pn then c
+  else if ck < i then
+    let r := insertEntry c.idxL c.lvlL c.olj ck ll
+    { c with idxL := r.1, lvlL := r.2.1, olj := r.2.2 }
+  else if ck > i then
+    let r := insertEntry c.idxU c.lvlU c.ouj ck ll
+    { c with idxU := r.1, lvlU := r.2.1, ouj := r.2.2 }
+  else c
+
+/-- `for(j = new_ptr_l[i]; j < new_idx_l.size(); ++j)`: the bound grows with the insertions (fuel-bounded) -/
+def symRowLoop (pn i : Nat) (ptrU : Array Nat) : Nat → Nat → SymCur → SymCur
+  | 0, _, c => c
+  | f + 1, j, c =>
+    if j < c.idxL.size then
+      let cj := c.idxL.getD j 0
+      let lj := c.lvlL.getD j 0
+      let c' := foldRange (ptrU.getD cj 0) (ptrU.getD (cj + 1) 0) (symEntry pn i lj)
+        { c with olj := j, ouj := ptrU.getD i 0 }
+      symRowLoop pn i ptrU f (j + 1) c'
+    else c
+
+/-- one row of `factorize_symbolic`: copy the level-0 entries, run the fill loop, close the row -/
+def symRow (s : IluSym) (pn : Nat) (st : SymState) (i : Nat) : SymState :=
+  let idxL := foldRange (s.rpL.getD i 0) (s.rpL.getD (i + 1) 0) (fun a j => a.push (s.ciL.getD j 0)) st.idxL
+  let lvlL := foldRange (s.rpL.getD i 0) (s.rpL.getD (i + 1) 0) (fun a _ => a.push 0) st.lvlL
+  let idxU := foldRange (s.rpU.getD i 0) (s.rpU.getD (i + 1) 0) (fun a j => a.push (s.ciU.getD j 0)) st.idxU
+  let lvlU := foldRange (s.rpU.getD i 0) (s.rpU.getD (i + 1) 0) (fun a _ => a.push 0) st.lvlU
+  let c := symRowLoop pn i st.ptrU (s.n + idxL.size + 1) (st.ptrL.getD i 0)
+    { idxL := idxL, lvlL := lvlL, idxU := idxU, lvlU := lvlU, olj := 0, ouj := 0 }
+  { ptrL := st.ptrL.push c.idxL.size, idxL := c.idxL, lvlL := c.lvlL,
+    ptrU := st.ptrU.push c.idxU.size, idxU := c.idxU, lvlU := c.lvlU }
 
 /-- `factorize_symbolic(p)` -/
-def factorizeSymbolic (s : IluSym) (p : Int) : IluSym := Id.run do
-  if p < 1 then return s
-  let pn := p.toNat
-  let mut nPtrL : Array Nat := #[0]
-  let mut nIdxL : Array Nat := #[]
-  let mut nLvlL : Array Nat := #[]
-  let mut nPtrU : Array Nat := #[0]
-  let mut nIdxU : Array Nat := #[]
-  let mut nLvlU : Array Nat := #[]
-  for i in [0:s.n] do
-    for j in [s.rpL.getD i 0 : s.rpL.getD (i + 1) 0] do
-      nIdxL := nIdxL.push (s.ciL.getD j 0)
-      nLvlL := nLvlL.push 0
-    for j in [s.rpU.getD i 0 : s.rpU.getD (i + 1) 0] do
-      nIdxU := nIdxU.push (s.ciU.getD j 0)
-      nLvlU := nLvlU.push 0
-    -- `for(IT_ j(new_ptr_l[i]); j < IT_(new_idx_l.size()); ++j)`: the bound grows with the insertions
-    let mut j := nPtrL.getD i 0
-    for _ in [0 : s.n + nIdxL.size + 1] do
-      if j < nIdxL.size then
-        let cj := nIdxL.getD j 0
-        let lj := nLvlL.getD j 0
-        let mut olj := j
-        let mut ouj := nPtrU.getD i 0
-        for k in [nPtrU.getD cj 0 : nPtrU.getD (cj + 1) 0] do
-          let ck := nIdxU.getD k 0
-          let lk := nLvlU.getD k 0
-          let ll := lj + lk + 1
-          if ll > pn then continue
-          if ck < i then
-            let r := insertEntry nIdxL nLvlL olj ck ll
-            nIdxL := r.1
-            nLvlL := r.2.1
-            olj := r.2.2
-          else if ck > i then
-            let r := insertEntry nIdxU nLvlU ouj ck ll
-            nIdxU := r.1
-            nLvlU := r.2.1
-            ouj := r.2.2
-        j := j + 1
-      else break
-    nPtrL := nPtrL.push nIdxL.size
-    nPtrU := nPtrU.push nIdxU.size
-  return { n := s.n, rpL := nPtrL, ciL := nIdxL, rpU := nPtrU, ciU := nIdxU }
+def factorizeSymbolic (s : IluSym) (p : Int) : IluSym :=
+  if p < 1 then s
+  else
+    let st := (List.range s.n).foldl (symRow s p.toNat)
+      { ptrL := #[0], idxL := #[], lvlL := #[], ptrU := #[0], idxU := #[], lvlU := #[] }
+    { n := s.n, rpL := st.ptrL, ciL := st.idxL, rpU := st.ptrU, ciU := st.idxU }
 
-/-- `copy_data_csr` into freshly `alloc_data`-sized arrays (every position is written) -/
-def copyDataCsr [Zero α] (s : IluSym) (A : Csr α) : IluNum α := Id.run do
-  let mut dl : Array α := Array.replicate s.ciL.size 0
-  let mut du : Array α := Array.replicate s.ciU.size 0
-  let mut dd : Array α := Array.replicate s.n 0
-  for i in [0:s.n] do
-    let mut ra := A.rowPtr.getD i 0
-    let xa := A.rowPtr.getD (i + 1) 0
-    for j in [s.rpL.getD i 0 : s.rpL.getD (i + 1) 0] do
-      if s.ciL.getD j 0 == A.colInd.getD ra A.cols then
-        dl := dl.setIfInBounds j (A.val.getD ra 0)
-        ra := ra + 1
-      else
-        dl := dl.setIfInBounds j 0
-    dd := dd.setIfInBounds i (A.val.getD ra 0)
-    ra := ra + 1
-    for j in [s.rpU.getD i 0 : s.rpU.getD (i + 1) 0] do
-      if ra < xa && s.ciU.getD j 0 == A.colInd.getD ra A.cols then
-        du := du.setIfInBounds j (A.val.getD ra 0)
-        ra := ra + 1
-      else
-        du := du.setIfInBounds j 0
-  return { dataL := dl, dataU := du, dataD := dd }
+/-- `copy_data_csr`, row `i`, `L` part: `if(col_idx_l[j] == col_idx_a[ra]) data_l[j] = data_a[ra++]; else data_l[j] = 0;`
+    (state: the array and the moving pointer `ra`) -/
+def copyL [Zero α] (s : IluSym) (A : Csr α) (st : Array α × Nat) (j : Nat) : Array α × Nat :=
+  if s.ciL.getD j 0 == A.colInd.getD st.2 A.cols then (st.1.setIfInBounds j (A.val.getD st.2 0), st.2 + 1)
+  else (st.1.setIfInBounds j 0, st.2)
 
-/-- `factorize_numeric_il_du` -/
-def factorizeNumeric [Zero α] [One α] [Sub α] [Mul α] [Div α] (s : IluSym) (d : IluNum α) : IluNum α := Id.run do
-  let mut dl := d.dataL
-  let mut du := d.dataU
-  let mut dd := d.dataD
-  for i in [0:s.n] do
-    let ql := s.rpL.getD (i + 1) 0
-    let qu := s.rpU.getD (i + 1) 0
-    for j in [s.rpL.getD i 0 : ql] do
-      let cj := s.ciL.getD j 0
-      let mut pl := j
-      let mut pu := s.rpU.getD i 0
-      dl := dl.setIfInBounds j (dl.getD j 0 * dd.getD cj 0)
-      let lij := dl.getD j 0
-      let kend := s.rpU.getD (cj + 1) 0
-      let mut k := s.rpU.getD cj 0
-      -- row j of U against row i of L
-      for _ in [0 : kend - k] do
-        let ck := s.ciU.getD k 0
-        if ck >= i then break
-        for _ in [0 : ql - pl] do
-          if pl < ql && s.ciL.getD pl 0 <= ck then
-            if s.ciL.getD pl 0 == ck then
-              dl := dl.setIfInBounds pl (dl.getD pl 0 - lij * du.getD k 0)
-            pl := pl + 1
-          else break
-        k := k + 1
-      -- main diagonal
-      if k < kend && s.ciU.getD k 0 == i then
-        dd := dd.setIfInBounds i (dd.getD i 0 - lij * du.getD k 0)
-        k := k + 1
-      -- row j of U against row i of U
-      for _ in [0 : kend - k] do
-        let ck := s.ciU.getD k 0
-        for _ in [0 : qu - pu] do
-          if pu < qu && s.ciU.getD pu 0 <= ck then
-            if s.ciU.getD pu 0 == ck then
-              du := du.setIfInBounds pu (du.getD pu 0 - lij * du.getD k 0)
-            pu := pu + 1
-          else break
-        k := k + 1
-    dd := dd.setIfInBounds i (1 / dd.getD i 0)
-  return { dataL := dl, dataU := du, dataD := dd }
+/-- `U` part: `if((ra < xa) && (col_idx_u[j] == col_idx_a[ra])) data_u[j] = data_a[ra++]; else data_u[j] = 0;` -/
+def copyU [Zero α] (s : IluSym) (A : Csr α) (xa : Nat) (st : Array α × Nat) (j : Nat) : Array α × Nat :=
+  if st.2 < xa && s.ciU.getD j 0 == A.colInd.getD st.2 A.cols then
+    (st.1.setIfInBounds j (A.val.getD st.2 0), st.2 + 1)
+  else (st.1.setIfInBounds j 0, st.2)
+
+/-- one row of `copy_data_csr`: the arrays of the object are overwritten in place -/
+def copyRow [Zero α] (s : IluSym) (A : Csr α) (d : IluNum α) (i : Nat) : IluNum α :=
+  let l := foldRange (s.rpL.getD i 0) (s.rpL.getD (i + 1) 0) (copyL s A) (d.dataL, A.rowPtr.getD i 0)
+  let dd := d.dataD.setIfInBounds i (A.val.getD l.2 0)
+  let u := foldRange (s.rpU.getD i 0) (s.rpU.getD (i + 1) 0) (copyU s A (A.rowPtr.getD (i + 1) 0)) (d.dataU, l.2 + 1)
+  { dataL := l.1, dataU := u.1, dataD := dd }
+
+/-- `copy_data_csr` into the data arrays `prev` of the object (allocated by `alloc_data`, possibly holding the factors
+    of an earlier `init_numeric`): every position is written, fill-in positions with zero -/
+def copyDataCsr [Zero α] (s : IluSym) (A : Csr α) (prev : IluNum α) : IluNum α :=
+  (List.range s.n).foldl (copyRow s A) prev
+
+/-- `alloc_data()`: value-initialised arrays of the right sizes -/
+def allocData [Zero α] (s : IluSym) : IluNum α :=
+  { dataL := Array.replicate s.ciL.size 0, dataU := Array.replicate s.ciU.size 0, dataD := Array.replicate s.n 0 }
+
+/-- `for(; (p < q) && (cidx[p] <= ck); ++p) if(cidx[p] == ck) data[p] -= t;` → the array and the pointer -/
+def mergeSub [Zero α] [Sub α] (idx : Array Nat) (q ck : Nat) (t : α) : Nat → Array α → Nat → Array α × Nat
+  | 0, a, p => (a, p)
+  | f + 1, a, p =>
+    if p < q && idx.getD p 0 ≤ ck then
+      mergeSub idx q ck t f (if idx.getD p 0 == ck then a.setIfInBounds p (a.getD p 0 - t) else a) (p + 1)
+    else (a, p)
+
+/-- first `k` loop of `factorize_numeric_il_du` (row `cj` of `U` against row `i` of `L`, stops at `ck >= i`) -/
+def elimLow [Zero α] [Sub α] [Mul α] (s : IluSym) (i ql kend : Nat) (lij : α) (du : Array α) :
+    Nat → Array α → Nat → Nat → Array α × Nat × Nat
+  | 0, dl, pl, k => (dl, pl, k)
+  | f + 1, dl, pl, k =>
+    if k < kend then
+      let ck := s.ciU.getD k 0
+      if ck ≥ i then (dl, pl, k)
+      else
+        let r := mergeSub s.ciL ql ck (lij * du.getD k 0) (ql - pl) dl pl
+        elimLow s i ql kend lij du f r.1 r.2 (k + 1)
+    else (dl, pl, k)
+
+/-- last `k` loop (row `cj` of `U` against row `i` of `U`) -/
+def elimUpp [Zero α] [Sub α] [Mul α] (s : IluSym) (qu kend : Nat) (lij : α) : Nat → Array α → Nat → Nat → Array α
+  | 0, du, _, _ => du
+  | f + 1, du, pu, k =>
+    if k < kend then
+      let r := mergeSub s.ciU qu (s.ciU.getD k 0) (lij * du.getD k 0) (qu - pu) du pu
+      elimUpp s qu kend lij f r.1 r.2 (k + 1)
+    else du
+
+/-- body of the loop over row `i` of `L` (storage position `j`) -/
+def elimLM [Zero α] [Sub α] [Mul α] (s : IluSym) (i : Nat) (d : IluNum α) (j : Nat) : IluNum α :=
+  let cj := s.ciL.getD j 0
+  let ql := s.rpL.getD (i + 1) 0
+  let qu := s.rpU.getD (i + 1) 0
+  let dl0 := d.dataL.setIfInBounds j (d.dataL.getD j 0 * d.dataD.getD cj 0)
+  let lij := dl0.getD j 0
+  let kend := s.rpU.getD (cj + 1) 0
+  let k0 := s.rpU.getD cj 0
+  let r := elimLow s i ql kend lij d.dataU (kend - k0) dl0 j k0
+  let k := r.2.2
+  let hit := k < kend && s.ciU.getD k 0 == i
+  let dd := if hit then d.dataD.setIfInBounds i (d.dataD.getD i 0 - lij * d.dataU.getD k 0) else d.dataD
+  let k' := if hit then k + 1 else k
+  { dataL := r.1, dataU := elimUpp s qu kend lij (kend - k') d.dataU (s.rpU.getD i 0) k', dataD := dd }
+
+/-- one row of `factorize_numeric_il_du`, then the pivot is inverted -/
+def factorRowM [Zero α] [One α] [Sub α] [Mul α] [Div α] (s : IluSym) (d : IluNum α) (i : Nat) : IluNum α :=
+  let d := foldRange (s.rpL.getD i 0) (s.rpL.getD (i + 1) 0) (elimLM s i) d
+  { d with dataD := d.dataD.setIfInBounds i (1 / d.dataD.getD i 0) }
+
+/-- `factorize_numeric_il_du` (merge pointers `pl`, `pu`, `k` as in the C++) -/
+def factorizeNumeric [Zero α] [One α] [Sub α] [Mul α] [Div α] (s : IluSym) (d : IluNum α) : IluNum α :=
+  (List.range s.n).foldl (factorRowM s) d
 
 /-- the stored factors as CSR matrices (shared dense meaning `Csr.entry`) -/
 def IluSym.matL (s : IluSym) (d : IluNum α) : Csr α :=
